@@ -80,7 +80,11 @@ def chopper_cases(draw, with_pulses=False):
         "phase_unit": draw(st.sampled_from(sorted(A_UNITS))),
         # slit edges given as whole degrees in an integer array (as in the package's own examples)
         "int_edges": draw(st.sampled_from([False, False, True])),
+        # whole-number frequencies handed over as integer variables (sc.scalar(14, unit='Hz'))
+        "int_freq": draw(st.sampled_from([False, False, True])),
     }
+    if case["int_freq"]:
+        case["fp"] = float(max(1, round(fp)))
     if with_pulses:
         case["npulses"] = draw(st.integers(1, 4))
         # Chopper.from_disk_chopper adds 1/pulse_frequency to the offsets: keep one frequency unit
@@ -115,15 +119,24 @@ def build(case, slits=None):
             b_st, e_st, edge_dtype = bi, ei, "int64"
     bp_st = _stored(case["bp"], A_UNITS[case["bp_unit"]])
     ph_st = _stored(case["phase"], A_UNITS[case["phase_unit"]])
+    def freq_var(value, unit):
+        if case.get("int_freq") and float(value).is_integer() and abs(value) < 2**53:
+            return sc.scalar(int(value), unit=unit, dtype="int64")
+        return sc.scalar(value, unit=unit)
+
+    if case.get("int_freq"):
+        # stored values that are whole numbers up to rounding are made exactly whole
+        f_st = float(round(f_st)) if abs(f_st - round(f_st)) < 1e-9 * max(1.0, abs(f_st)) else f_st
+        fp_st = float(round(fp_st)) if abs(fp_st - round(fp_st)) < 1e-9 * max(1.0, abs(fp_st)) else fp_st
     kwargs = {
         "axle_position": sc.vector([0.0, 0.0, 5.0], unit="m"),
-        "frequency": sc.scalar(f_st, unit=case["f_unit"]),
+        "frequency": freq_var(f_st, case["f_unit"]),
         "beam_position": sc.scalar(bp_st, unit=case["bp_unit"]),
         "phase": sc.scalar(ph_st, unit=case["phase_unit"]),
         "slit_begin": sc.array(dims=["slit"], values=b_st, unit=case["slit_unit"], dtype=edge_dtype),
         "slit_end": sc.array(dims=["slit"], values=e_st, unit=case["slit_unit"], dtype=edge_dtype),
     }
-    pulse = sc.scalar(fp_st, unit=case["fp_unit"])
+    pulse = freq_var(fp_st, case["fp_unit"])
     ref = {
         "omega": disk.TWO_PI * f_st * F_UNITS[case["f_unit"]],
         "bp": bp_st * A_UNITS[case["bp_unit"]],
@@ -200,6 +213,7 @@ def check_openings(case):
     labs, nt = labels_of(case)
     kwargs, pulse, ref = build(case)
     labs.append("edges:" + ref["edge_dtype"])
+    labs.append(f"freq:{kwargs['frequency'].dtype}/pulse:{pulse.dtype}")
     ch = DiskChopper(**kwargs)
     to = ch.time_offset_open(pulse_frequency=pulse)
     tc = ch.time_offset_close(pulse_frequency=pulse)
